@@ -14,8 +14,11 @@ Tie      : the model pipeline (`mx events str|buf16|buf8`) yields the same event
            (text, spans, error position).
 Theorems : coq/Properties/C05.v (about the scanner model's scan_block_scalar and its helpers on the string back-end;
            what is covered and what is not is listed at the top of that file).
-Known    : known_findings_c05.jsonl — three input classes on which the unchanged implementation violates the property;
-           each is a decidable predicate on the generated case (`known_class`).
+Known    : known_findings_c05.jsonl — one open class (a tab at column 0 on the first line of a top-level scalar with
+           auto-detected indentation is rejected; decidable predicate `known_class`).  The three classes recorded earlier (end of input after a last line
+           of spaces under clip / keep, `---` after content at column 0) were repaired in /repo (42046c7, 001a921) and
+           are `fixed` entries now: nothing is suppressed, their members are ordinary cases of the random stream and of
+           the directed list (`REGRESSIONS`), and a regression is reported as a VIOLATION with the failing input.
 """
 import json
 import os
@@ -242,8 +245,8 @@ def gen_lines(rng, n, auto, top0):
         e = rng.choice([0, 0, 0, 0, 1, 2, 3, 5])
         if auto and not seen_text:
             e = 0
-        if top0 and e == 0 and (s.startswith("\t") and not raw):
-            s = "t" + s                  # excluded: a tab at column 0 right below a top-level header (see report)
+        # (a tab at column 0 right below a top-level header with auto-detected indentation is generated too: the known
+        #  class top-level-column-0-content-starts-with-tab)
         if n + e == 0 and re.match(r"^(---|\.\.\.)([ \t]|$)", s):
             e = 1 if (seen_text or not auto) else 0
             if e == 0:
@@ -297,23 +300,49 @@ DIRECTED = [
     ("a:\n" + " " * 20 + "b: ", 20, True, "c", 0, [(22, "wide"), (22, "path")], "N"),
     ("a:\n" + " " * 14 + "b: ", 14, False, "k", 2, [(16, "wide"), (0, ""), (17, "more")], "Z"),
     ("- ", 0, True, "c", 1, [(3, "lead")], "N"), ("k: ", 0, False, "c", 0, [(1, "\ttab"), (1, "x")], "N"),
+    # a tab at column 0 of a top-level scalar: first line (known class), second line and after a blank line (accepted)
+    ("", -1, True, "c", 0, [(0, "\tx")], "N"), ("--- ", -1, False, "k", 0, [(0, "\t"), (0, "y")], "Z"),
+    ("", -1, True, "c", 0, [(0, ""), (0, "\tx")], "N"), ("", -1, True, "c", 0, [(0, "x"), (0, "\ty")], "N"),
 ]
+
+# the members of the three repaired finding classes (42046c7, 001a921): regression tests, nothing is suppressed.
+# (prefix, parent, literal, chomp, explicit, raw, eof, scalars after the block scalar)
+REGRESSIONS = []
+for _lit in (True, False):
+    for _chomp in "sck":
+        for _pre, _par, _n in (("a: ", 0, 2), ("", -1, 1), ("- - ", 2, 5), ("a:\n" + " " * 14 + "b: ", 14, 16)):
+            # the input ends inside a last line of k spaces: k < n, k = n, k > n; after content and after content + blank lines
+            for _k in sorted({1, _n - 1, _n, _n + 1, _n + 3}):
+                if _k >= 1:
+                    REGRESSIONS.append((_pre, _par, _lit, _chomp, 0, [(_n, "x"), (_k, "")], "Z", []))
+                    REGRESSIONS.append((_pre, _par, _lit, _chomp, 0, [(_n, "x"), (_n, "y"), (0, ""), (_k, "")], "Z", []))
+                    REGRESSIONS.append((_pre, _par, _lit, _chomp, 0, [(_n, "x"), (_n + 1, ""), (_k, "")], "Z", []))
+        # `---` after content at column 0 of a top-level scalar
+        for _m, _after in (("---", ["~"]), ("---\n", ["~"]), ("---\nb\n", ["b"]), ("--- b", ["b"]), ("---\t# c\nb\n", ["b"]),
+                           ("--- |\nc\n", None), ("...\n---\nb\n", ["b"]), ("...", [])):
+            for _raw in ([(0, "a")], [(0, "a"), (0, "b"), (0, "")], [(0, "a"), (1, "--- x"), (0, "----")], [(0, ""), (0, "a")]):
+                if _after is not None:
+                    REGRESSIONS.append(("", -1, _lit, _chomp, 0, _raw, ("R", _m), _after))
+                    REGRESSIONS.append(("--- ", -1, _lit, _chomp, 0, _raw, ("R", _m), _after))
 
 
 def directed_cases():
     out = []
-    for prefix, parent, literal, chomp, explicit, raw, eof in DIRECTED:
+    for item in DIRECTED + REGRESSIONS:
+        prefix, parent, literal, chomp, explicit, raw, eof = item[:7]
         before = ["a"] if prefix.startswith("a:") else (["k"] if prefix.startswith("k:") else [])
         if "b: " in prefix:
             before.append("b")
         after = ["~"] if eof not in ("N", "Z") and eof[1].startswith("---") else []
+        if len(item) > 7:
+            after = list(item[7])
         out.append(dict(literal=literal, chomp=chomp, explicit=explicit, digit_first=False, parent=parent, prefix=prefix, hc="",
                         raw=raw, eof=eof, brk=0, before=before, after=after, ctx="directed", depth=0))
     return out
 
 
 # ------------------------------------------------------------------------------------------------
-# known findings (known_findings_c05.jsonl): decidable predicates on the case
+# known findings (known_findings_c05.jsonl): decidable predicates on the case (only `known` entries suppress)
 # ------------------------------------------------------------------------------------------------
 def load_known():
     p = os.path.join(core.VERIF, "known_findings_c05.jsonl")
@@ -329,18 +358,12 @@ def load_known():
 
 
 def known_class(c, n):
-    """name of the known-finding class the case belongs to, or None"""
+    """name of the OPEN known-finding class the case belongs to, or None.  The classes
+    eof-after-indentation-only-line/clip, eof-after-short-space-line/keep (42046c7) and
+    column-0-content-followed-by-document-start (001a921) are repaired and must satisfy the specification."""
     raw = c["raw"]
-    has_text = any(line_kind(n, sp, s) is not None for sp, s in raw)
-    if c["eof"] == "Z" and raw and has_text:
-        sp, s = raw[-1]
-        if s == "" and 1 <= sp <= n:
-            if sp == n and c["chomp"] == "c":
-                return "eof-after-indentation-only-line/clip"
-            if sp < n and c["chomp"] == "k":
-                return "eof-after-short-space-line/keep"
-    if c["parent"] < 0 and n == 0 and c["eof"] not in ("N", "Z") and re.match(r"^---([ \t\r\n]|$)", c["eof"][1]):
-        return "column-0-content-followed-by-document-start"
+    if c["parent"] < 0 and not c["explicit"] and raw and raw[0][0] == 0 and raw[0][1].startswith("\t"):
+        return "top-level-column-0-content-starts-with-tab"
     return None
 
 
@@ -624,18 +647,22 @@ def check_C05(tier, seed):
         res.coverage["coqchk"] = "ok" if ok else "FAILED"
         if not ok:
             res.add_tie_break("coqchk rejects the compiled proofs", error=out[-1500:])
-    res.notes.append("theorems (scanner model, string back-end, all inputs of the class): nls/chomping arithmetic; content line through "
-                     "the buffered-peek loop and the raw fast path; skip_spaces_to / skip_block_scalar_indent (narrow and wide path) / "
-                     "skip_first_line_indent; scan_block_scalar = block_value for literal AND folded style, every chomping, explicit "
-                     "or auto indentation (content indentation 0 included), header white space / comment, all line lists with >= 1 "
-                     "content line (final newline then a less indented line / end of input / `...` at column 0; end of input right "
-                     "after the last content line) and for content-less scalars (end-of-stream path, enclosing-collection "
-                     "follower).  C05_full (all shapes, CR/CRLF, buffered back-ends) is stated and refuted on the faithful model by "
-                     "the three known-finding classes.")
+    res.notes.append("theorems (scanner model, string back-end, all inputs of the class, line breaks LF / CR LF / CR): nls/chomping "
+                     "arithmetic; content line through the buffered-peek loop and the raw fast path; skip_spaces_to / "
+                     "skip_block_scalar_indent (narrow and wide path) / skip_first_line_indent; scan_block_scalar = block_value for "
+                     "literal AND folded style, every chomping, explicit or auto indentation (content indentation 0 included), header "
+                     "white space / comment, all line lists with >= 1 content line (final break then a less indented line / end of "
+                     "input / `...` or `---` at column 0; end of input right after the last content line or inside a last line of "
+                     "<= indentation spaces: clip drops it, keep counts it) and for content-less scalars (end-of-stream path, header "
+                     "at end of input, enclosing-collection follower, document marker); C05_case_partial: the same for EVERY case of "
+                     "the specification with case_ok outside the leading-tab class, from any scanner state at the indicator.  "
+                     "C05_full (contexts in front of the indicator, buffered back-ends) is stated and still refuted on the faithful "
+                     "model by the one remaining class (a tab at column 0 of the first line of a top-level scalar with auto-detected "
+                     "indentation).")
     res.assumptions += [
         "reading R1: the end of the input terminates a line like a line break (yaml-test-suite JEF9-02)",
         "reading R2: an indentation indicator at top level counts from column 0 (parent indentation -1 read as 0)",
-        "excluded from generation: a tab at column 0 on the first line below a top-level header with auto-detected indentation",
+        "the follower line of a case does not start with NUL (no YAML stream contains it; the scanner reads it as the end of input)",
     ]
     rule = ("random line lists (text lines incl. YAML look-alikes, comments, leading tabs, trailing blanks, long and multi-byte lines; "
             "blank lines of 0..n+3 spaces; more-indented lines) x literal/folded x strip/clip/keep x auto/explicit(1-9, either "
